@@ -119,7 +119,8 @@ pub fn write_dso_debug_stream(
         // Adjust base address with the virtual address of the PT_LOAD segment
         // corresponding to offset 0
         if ph.p_type == goblin::elf::program_header::PT_LOAD && ph.p_offset == 0 {
-            base -= ph.p_vaddr as usize;
+            // Addresses in hostile memory can be anything: wrap like the C original does
+            base = base.wrapping_sub(ph.p_vaddr as usize);
         }
         if ph.p_type == goblin::elf::program_header::PT_DYNAMIC {
             dyn_addr = ph.p_vaddr;
@@ -132,7 +133,7 @@ pub fn write_dso_debug_stream(
         ));
     }
 
-    dyn_addr += base as ElfAddr;
+    dyn_addr = dyn_addr.wrapping_add(base as ElfAddr);
 
     let dyn_size = std::mem::size_of::<goblin::elf::Dyn>();
     let mut r_debug = 0usize;
@@ -144,7 +145,9 @@ pub fn write_dso_debug_stream(
     loop {
         let dyn_data = PtraceDumper::copy_from_process(
             blamed_thread,
-            dyn_addr as usize + dynamic_length,
+            (dyn_addr as usize).checked_add(dynamic_length).ok_or(
+                SectionDsoDebugError::CouldNotFind("end of the dynamic section"),
+            )?,
             dyn_size,
         )?;
         dynamic_length += dyn_size;
